@@ -178,6 +178,65 @@ def lazy_global(fs) -> Optional[str]:
     return G
 
 
+def rule_shared_containers(ctx: Ctx, repo, scope_funcs):
+    """R-C15-8: two ways of sharing a container without meaning to.
+    (a) `G[k]` on a module-level collections.defaultdict is a *write* when k is missing: a look-up meant as a test leaves k behind for every later call
+        (`k in G` then answers differently).  On the extraction path such a read needs `k in G` first, or `.get`.
+    (b) a class attribute bound to a mutable container in the class body (no annotation, so the dataclass machinery does not make it a per-instance
+        field) is one object for all instances; it must not be mutated through any `<obj>.<name>` anywhere in the package."""
+    from ..guards import guarded as _guarded
+    MUT = ("add", "append", "extend", "update", "insert", "pop", "remove", "discard", "clear", "setdefault", "popitem", "sort", "reverse", "appendleft")
+    # (a)
+    dd = {}
+    for m in repo.modules.values():
+        for st in m.tree.body:
+            if isinstance(st, (ast.Assign, ast.AnnAssign)) and getattr(st, "value", None) is not None and isinstance(st.value, ast.Call) \
+                    and (dotted(st.value.func) or "").split(".")[-1] == "defaultdict":
+                for t in (st.targets if isinstance(st, ast.Assign) else [st.target]):
+                    if isinstance(t, ast.Name):
+                        dd[(m.name, t.id)] = st
+    n_a = 0
+    for q, mod, fn in scope_funcs:
+        for sub in [x for x in walk_local(fn) if isinstance(x, ast.Subscript) and isinstance(x.ctx, ast.Load) and isinstance(x.value, ast.Name)]:
+            nm = sub.value.id
+            org = mod.imports.get(nm)
+            key = (org.split(".")[1], org.split(".")[-1]) if org and org.startswith("eyecite.") and org.count(".") >= 2 else (mod.name, nm)
+            if key not in dd or any(nm in assigned_names(x) for x in stmts_local(fn.body)):
+                continue
+            n_a += 1
+            k_ = norm(sub.slice)
+            ctx.ob("R-C15-8", f"{q}/{nm}[{k_[:30]}]:vivifying-read", _guarded(fn, sub, {f"{k_} in {nm}"}),
+                   f"`{norm(sub)[:50]}` reads the module-level defaultdict `{nm}`: for a missing key the read inserts it, and the table every later call sees has "
+                   f"changed; test `{k_[:30]} in {nm}` first or use .get()", node=sub, mod=mod)
+    # (b)
+    shared = {}
+    for cname, ci in repo.classes.items():
+        for st in ci.node.body:
+            if isinstance(st, ast.Assign) and len(st.targets) == 1 and isinstance(st.targets[0], ast.Name):
+                v = st.value
+                if isinstance(v, (ast.List, ast.Dict, ast.Set, ast.ListComp, ast.DictComp, ast.SetComp)) or (
+                        isinstance(v, ast.Call) and (dotted(v.func) or "").split(".")[-1] in ("set", "list", "dict", "defaultdict", "deque", "OrderedDict", "Counter")):
+                    shared[st.targets[0].id] = (cname, st)
+    n_b = 0
+    for attr, (cname, st) in sorted(shared.items()):
+        muts = []
+        for q, mod, fn in repo.all_funcs():
+            for x in walk_local(fn):
+                if isinstance(x, ast.Call) and isinstance(x.func, ast.Attribute) and x.func.attr in MUT and isinstance(x.func.value, ast.Attribute) and x.func.value.attr == attr:
+                    muts.append((q, x))
+                if isinstance(x, ast.Subscript) and isinstance(x.ctx, (ast.Store, ast.Del)) and isinstance(x.value, ast.Attribute) and x.value.attr == attr:
+                    muts.append((q, x))
+                if isinstance(x, ast.AugAssign) and isinstance(x.target, ast.Attribute) and x.target.attr == attr:
+                    muts.append((q, x))
+        n_b += 1
+        ctx.ob("R-C15-8", f"models.{cname}.{attr}/class-level-container-read-only", not muts,
+               f"`{attr}` is bound to a mutable container in the body of class {cname}: one object shared by all instances; it is mutated at "
+               f"{[(q_, norm(x_)[:40]) for q_, x_ in muts][:3]} -- what one document adds, every later document sees", node=muts[0][1] if muts else st,
+               mod=repo.classes[cname].module)
+    ctx.ob("R-C15-8", "package/shared-containers", True, f"{n_a} reads of module-level defaultdicts on the extraction path, {n_b} class-level containers inspected",
+           node=None, mod=repo.mod("models"), nontrivial=False)
+
+
 def rule_persistent_cache(ctx: Ctx, repo, scope_funcs):
     """R-C15-7: state kept on disk outlives the process, so it is part of the history the result must not depend on.  A file that is read back
     instead of recomputing a value must be named by a key that depends on every input of that value: the attributes of the tokenizer's extractors
@@ -597,6 +656,7 @@ def run(ctx: Ctx):
                 top += list(ast.walk(s))
         ambient_calls("<module>", top, m)
     rule_persistent_cache(ctx, repo, [(q, eff.funcs[q].mod, eff.funcs[q].node) for q in scope])
+    rule_shared_containers(ctx, repo, [(q, eff.funcs[q].mod, eff.funcs[q].node) for q in scope if not q.startswith("tokenizers._populate_reporter_extractors")])
     # ---- R-C15-5 observation: module-level list handed to callers -------------------
     f = repo.need_func(ENTRY)
     shared_returns = [r for r in walk_local(f) if isinstance(r, ast.Return) and isinstance(r.value, ast.Name) and r.value.id in repo.mod("find").imports]
